@@ -499,3 +499,63 @@ _jobs_virtual = jobs
 
 def jobs(tier):
     return _jobs_virtual(tier) + [(h_virtual_range, (False,), 1800), (h_virtual_range, (True,), 1800)]
+
+
+@guard
+def h_slice_generate(kind):
+    """SliceGenerator::generate(): the deferred slice is applied to the array it was taken from - a stored range [a:b:1] as getitem_range(a, b)
+    with exactly those bounds (kind 'range'), any other stored slice through getitem with the stored slice itself (kind 'at') - and the answer is
+    returned as it is"""
+    from .cpp01 import struct_of
+    from .nodeh import NodeCtx
+    nc = NodeCtx(['EA', 'CNT', 'IDX', 'UTL', 'KD', 'IDS', 'SLC'], [], unwind=10)
+    nodeh.SRC.setdefault('AG', AG)
+    agm = module_of(AG)
+    if agm not in nc.m.eng.mods:
+        nc.m.eng.mods.append(agm)
+    sfo = agm.types.struct_layout(struct_of(agm, '_ZNK7awkward14SliceGenerator8generateEv'))[0]
+    a, b = nc.m.bv('a'), nc.m.bv('b')
+    seen = []
+    kk = z3.BitVec('k!', 64)
+
+    def s_range(eng, fr, ins, st, name, argv):
+        seen.append(('range', st.pc, argv[2], argv[3]))
+        nc._ret(st, argv[0], nc.fresh_content(eng, st, BV(3), z3.Lambda([kk], kk + 700), derived='sliced'))
+        return None
+
+    def s_getitem(eng, fr, ins, st, name, argv):
+        seen.append(('getitem', st.pc, argv[2], None))
+        nc._ret(st, argv[0], nc.fresh_content(eng, st, BV(3), z3.Lambda([kk], kk + 800), derived='sliced'))
+        return None
+    nc.m.eng.stubs['vf$slot%d' % nc.slot('13getitem_rangeEll')] = s_range
+    nc.m.eng.stubs['vf$slot%d' % nc.slot('7getitemERKNS_5SliceE')] = s_getitem
+    if kind == 'range':
+        item = nc.m.record('item', {0: (nc.vptr_of('N7awkward10SliceRangeE', 'SLC'), 8), 8: (a, 8), 16: (b, 8), 24: (BV(1), 8)}, const=True)
+    else:
+        item = nc.m.record('item', {0: (nc.vptr_of('N7awkward7SliceAtE', 'SLC'), 8), 8: (a, 8)}, const=True)
+    nc.m.record('itemsbuf', {0: (item, 8), 8: (NULL, 8)}, const=True)
+    st0 = State({}, nc.m.mem, z3.BoolVal(True))
+    vt = nc.m.eng.global_ptr(st0, '@_ZTVN7awkward14SliceGeneratorE', agm)
+    cells = {0: (Ptr(vt.obj, 16), 8), 8: (NULL, 8), 16: (NULL, 8), 24: (NULL, 8), 32: (NULL, 8), 40: (BV(3), 8),
+             sfo[1]: (nc.content0, 8), sfo[1] + 8: (NULL, 8),
+             sfo[2]: (Ptr('itemsbuf', 0), 8), sfo[2] + 8: (Ptr('itemsbuf', 16), 8), sfo[2] + 16: (Ptr('itemsbuf', 16), 8), sfo[2] + 24: (z3.BitVecVal(1, 8), 1)}
+    this = nc.m.record('sg', cells, const=True)
+    nc.m.record('ret', {})
+    out = nc.m.call('_ZNK7awkward14SliceGenerator8generateEv', [Ptr('ret', 0), this])
+    obls = [('generate does not raise', out.raised), ('the array is sliced exactly once', z3.BoolVal(len(seen) != 1))]
+    for what, pc, x, y in seen:
+        if kind == 'range':
+            obls.append(('a stored range is applied as getitem_range with exactly its bounds', z3.And(pc, z3.Or(z3.BoolVal(what != 'range'), x != a, (y != b) if y is not None else z3.BoolVal(True)))))
+        else:
+            same = z3.Or([g for g, q in nodeh.ptr_cases(x) if q.obj == 'sg' and q.off == sfo[2]] + [z3.BoolVal(False)]) if what == 'getitem' else z3.BoolVal(False)
+            obls.append(('any other stored slice is applied through getitem with the stored slice', z3.And(pc, z3.Not(same))))
+    res = nodeh.decode(nc, out.mem, nc.m.cell('ret', 0))
+    obls.append(('what the array answers is returned as it is', z3.BoolVal(res.get('cls') != 'opaque' or res.get('derived') != 'sliced')))
+    return mdischarge(nc.m, 'SliceGenerator::generate (%s)' % kind, obls, [], replay=None, extra=dict(bounds='stored bounds any int64; the sliced array is an opaque content'))
+
+
+_jobs_vrange = jobs
+
+
+def jobs(tier):
+    return _jobs_vrange(tier) + [(h_slice_generate, ('range',), 900), (h_slice_generate, ('at',), 900)]
